@@ -210,6 +210,27 @@ theorem multi_parent_findParent (ds : Dataset) (self : Idx) (q : Quad) (g : Stri
   simp only [hg, hl, hs, uniqueParent]
   cases selfReferenced g self q.s qs 0 <;> exact ⟨_, rfl⟩
 
+/-- **Multi-parent rejected (document level)**: a dataset in which some node is the object of two other quads of its
+    own graph is not merklized at all — `entries` is an error, whatever else the dataset holds and whatever order the
+    graph map is iterated in. Never a path under an arbitrary one of the parents. -/
+theorem multi_parent_rejected (canon : String → Option String) (p : Nat) (ds : Dataset) (g : String) (qs : List Quad)
+    (k : Nat) (q : Quad) (a b : Idx) (rest : List Idx)
+    (hl : ds.lookup g = some qs) (hq : qs[k]? = some q) (hg : graphName q = .ok g)
+    (hs : scanGraph g (g, k) q.s qs 0 = a :: b :: rest) : ∃ e, entries canon p ds = .error e := by
+  obtain ⟨e, he⟩ := multi_parent_findParent ds (g, k) q g qs a b rest hg hl hs
+  exact entries_error_of_findParent canon p ds g qs k q e hl hq he
+
+/-- … and so is a dataset with a node that refers to itself -/
+theorem self_reference_rejected_entries (canon : String → Option String) (p : Nat) (ds : Dataset) (g : String) (qs : List Quad)
+    (k : Nat) (q : Quad) (hl : ds.lookup g = some qs) (hq : qs[k]? = some q) (hg : graphName q = .ok g)
+    (hs : selfReferenced g (g, k) q.s qs 0 = true) : ∃ e, entries canon p ds = .error e := by
+  have : ∃ e, findParent ds (g, k) q = .error e := by
+    unfold findParent findParentInsideGraph
+    simp only [hg, hl, hs, if_true]
+    exact ⟨_, rfl⟩
+  obtain ⟨e, he⟩ := this
+  exact entries_error_of_findParent canon p ds g qs k q e hl hq he
+
 /-- **a node that refers to itself is rejected** (a reference cycle of length one; defect D13) -/
 theorem self_reference_rejected (ds : Dataset) (self : Idx) (q : Quad) (g : String) (qs : List Quad)
     (hg : graphName q = .ok g) (hl : ds.lookup g = some qs) (hs : selfReferenced g self q.s qs 0 = true) :
